@@ -28,6 +28,12 @@ def run(ctx, rep):
     if not fs:
         rep.violation("ANCHOR", "crypto_kdf_derive_from_key", "public function not found")
         return
+    # "rejects other lengths with an error": the refusal is an Err, never a panic - no panic-capable site (index,
+    # slice, arithmetic overflow, unwrap) of the derivation is reachable for any subkey length (C04's engine, with
+    # the derivation and the object API as entry points)
+    from . import c04 as _c04
+    _c04.check(ctx, rep, prog, "", entries_spec=[("classic::crypto_kdf::crypto_kdf_derive_from_key",),
+                                                ("kdf::Kdf", "derive_subkey"), ("kdf::Kdf", "derive_subkey_to_vec")])
     from ..inline import inline
     f = inline(prog, fs[0])      # salt/personal builders and the like folded in
     subkey = 1                   # public signature (positional): (subkey, subkey_id, context, main_key)
